@@ -15,7 +15,7 @@ const (
 
 var (
 	rComment = regexp.MustCompile(`@tag (.*)`) // 匹配注入 tag
-	rInject  = regexp.MustCompile("`.+`$")
+	rInject  = regexp.MustCompile("`.*`$") // 注: tag 可能为空, 如: ``
 	rTags    = regexp.MustCompile(`\w+:"[^"]+"`) // 匹配 tag
 )
 
